@@ -26,6 +26,7 @@ pub mod verif_hook {
     use core::panic::Location;
     use core::sync::atomic::{AtomicUsize, Ordering};
 
+    /// hook signature: (event kind, lock address, call site)
     pub type HookFn = fn(kind: u8, lock: usize, site: &'static Location<'static>);
 
     static HOOK: AtomicUsize = AtomicUsize::new(0);
